@@ -339,7 +339,7 @@ Plan gen_conc(uint64_t seed, const string &prop) {
   // prefill so that the memtable switch and a background flush happen inside the history
   long brink = r.chance(0.6) ? (long)r.range(40000, 70000) : 0;
   p.seti("prefill", brink);
-  p.seti("l0_files", r.chance(prop == "C09" ? 0.5 : 0.15) ? (int)r.range(3, 11) : 0);
+  p.seti("l0_files", r.chance(prop == "C09" ? 0.5 : 0.15) ? (int)r.range(3, prop == "C09" ? 15 : 11) : 0);
   uint64_t tag = 1000;
   double w[O_NKINDS] = {0};
   auto sw = [&](double base) { static const double f[] = {0, 0.5, 1, 1, 2, 3}; return base * r.pick(f); };
